@@ -57,6 +57,11 @@ def error_atom_eval(kind, subject, extra=None):
                         return kind in classes
                     if what == ("builtin", "BaseException"):
                         return kind == "exc_instance"
+                    # the types behind inspect.isfunction / inspect.ismethod
+                    if what == ("attr", ("module", "types"), "FunctionType"):
+                        return kind == "function"
+                    if what == ("attr", ("module", "types"), "MethodType"):
+                        return kind == "method"
                     if what == ("builtin", "Exception"):
                         return None if kind == "exc_instance" else False
                     if what[0] == "display" and what[1] == "tuple":
